@@ -515,6 +515,8 @@ fn c11(ctx: &Ctx) -> i32 {
     let rule = "generated graph mixing services/builds/aggregates x requested subset x schedule (one-shot) and x notices restarting services (watch); keep-alive iff a service stands behind a requested root; service started before and alive during dependent builds; never two live instances; stopped at shutdown; non-trivial = service behind an aggregate / requested and depended on / needed by a build / restarted; distinct = shape classes x feature set x #services";
     sim_check(ctx, &mut report, params, ctx.tier.pick(200_000, 3_000_000), oracle_c11, rule, 11);
     bb_replays(ctx, &mut report);
+    bb_part(ctx, &mut report, "c11", BbParams { max_n: 8, failures: true, services: true, rendezvous: false }, ctx.tier.pick(64, 400),
+        "same, with failing build scripts: services that are only dependencies must be stopped when zinoma exits on the error path too (no marked process left); keep-alive verdicts are only judged when nothing fails", 311);
     bb_part(ctx, &mut report, "c11", BbParams { max_n: 8, failures: false, services: true, rendezvous: false }, ctx.tier.pick(96, 600),
         "real binary: services are exec-sleep shells, builds check kill -0 of the services they depend on at start and end; zinoma alive-and-idle after all builds iff a service stands behind a requested root; SIGTERM then exits < 5 s with no marked process left; non-trivial = service behind aggregate / requested and depended on / needed by a build", 111);
     if ctx.replay.is_none() {
